@@ -9,6 +9,8 @@ Inductive c18_input :=
            (intent : list nat) (base_gen : option (list nat)) (base_objs : option (list nat))
 | InMV (K : mvctx) (intent : ddict) (base_gen : option ddict) (base : option (list nat))
        (ps_to_iterate : option (list nat)) (pstart : nat)
+| InMVNamed (K : mvctx) (snames onames : list nat) (intent : ddict) (base_gen : option ddict)
+            (base : option (list nat)) (ps_to_iterate : option (list nat)) (pstart : nat)
 | InDiff (K : mvctx) (new old : ddict).
 
 (* what the implementation returned; OErr 10 = no answer within the alarm *)
@@ -36,9 +38,17 @@ Definition gens_same (m : list (list nat)) (o : c18_out) : bool :=
   | OGens l' => lists_set_eqb m l'
   | _ => false
   end.
+(* a dict is compared by content: both sides sorted by key *)
+Fixpoint dd_insert (x : nat * descr) (l : ddict) : ddict :=
+  match l with
+  | [] => [x]
+  | y :: l' => if Nat.leb (fst x) (fst y) then x :: l else y :: dd_insert x l'
+  end.
+Definition dd_sort (d : ddict) : ddict := fold_right dd_insert [] d.
+
 Definition mvres_same (m : mvres) (o : c18_out) : bool :=
   match m, o with
-  | MOk l, OMV l' => dds_set_eqb l l'
+  | MOk l, OMV l' => dds_set_eqb (map dd_sort l) (map dd_sort l')
   | MErr k, OErr k' => Nat.eqb k k'
   | MOutOfFuel, OErr 10 => true
   | _, _ => false
@@ -51,6 +61,8 @@ Definition c18_model_same (c : c18_case) : bool :=
       gens_same (get_minimal_generators_named b t on an intent bg bo) (c_out c)
   | InMV K intent bg base pti pstart =>
       mvres_same (mv_get_minimal_generators MV_FUEL K intent bg base pti pstart) (c_out c)
+  | InMVNamed K sn on intent bg base pti pstart =>
+      mvres_same (mv_get_minimal_generators_named MV_FUEL K sn on intent bg base pti pstart) (c_out c)
   | InDiff K new old =>
       match generators_by_intent_difference K new old, c_out c with
       | ROk l, OMV l' => dds_eqb l l'
@@ -58,6 +70,13 @@ Definition c18_model_same (c : c18_case) : bool :=
       | _, _ => false
       end
   end.
+
+Fixpoint first_pos_from (k : nat) (names : list nat) (x : nat) : option nat :=
+  match names with
+  | [] => None
+  | y :: ys => if Nat.eqb x y then Some k else first_pos_from (S k) ys x
+  end.
+Definition first_pos := first_pos_from 0.
 
 Definition c18_spec_ok (c : c18_case) : bool :=
   match c_in c with
@@ -79,6 +98,19 @@ Definition c18_spec_ok (c : c18_case) : bool :=
       match c_out c with
       | OMV l => mv_soundb K intent (default (seq 0 (mv_n K)) base) l
       | OErr _ => true            (* nothing returned: the statement is about returned generators *)
+      | _ => false
+      end
+  | InMVNamed K sn on intent bg base pti pstart =>
+      (* names -> structure index by the FIRST structure carrying the name (the spec's own look-up) *)
+      let ps_of nm := match first_pos sn nm with Some i => i | None => length sn end in
+      let to_idx (d : ddict) := map (fun kv => (ps_of (fst kv), snd kv)) d in
+      let bo := match base with
+                | Some l => filter (fun g => mem (nth g on 0) l) (seq 0 (mv_n K))
+                | None => seq 0 (mv_n K)
+                end in
+      match c_out c with
+      | OMV l => mv_soundb K (to_idx intent) bo (map to_idx l)
+      | OErr _ => true
       | _ => false
       end
   | InDiff K new old =>
@@ -112,5 +144,7 @@ Definition c18_show (c : c18_case) :=
   | InMV K intent bg base pti pstart =>
       (None, Some (mv_get_minimal_generators MV_FUEL K intent bg base pti pstart,
                    mv_ext_spec K intent (default (seq 0 (mv_n K)) base)), None)
+  | InMVNamed K sn on intent bg base pti pstart =>
+      (None, Some (mv_get_minimal_generators_named MV_FUEL K sn on intent bg base pti pstart, []), None)
   | InDiff K new old => (None, None, Some (generators_by_intent_difference K new old))
   end.
